@@ -45,7 +45,11 @@ def blocks(tier, seed, prop='C01'):
         if tier == 'quick':
             if r == 'R2':
                 continue
-            chosen = vlib.seeded_windows(seed, len(wins), 2, always=(1,))
+            # always: window 1 and, on the coding reference, the window that contains the stop codon (stop-loss
+            # and read-through bookkeeping); the seed adds one more
+            stopw = (panel.get(r).cds_tx(tx)[1] // WIN) if panel.get(r).cds_tx(tx) else None
+            always = (1,) if stopw is None else (1, stopw)
+            chosen = vlib.seeded_windows(seed, len(wins), len(always) + 1, always=always)
         else:
             chosen = list(range(len(wins)))
         for wi in chosen:
